@@ -17,6 +17,7 @@
 #[path = "/repo/src/timing.rs"] pub mod timing;
 
 mod util;
+mod roms;
 mod s_c01;
 mod s_c02;
 mod s_c03;
